@@ -137,6 +137,11 @@ def part3(chk, tier, rnd):
     for v in (7, 2147483647, 2147483648, 3000000000, 4294967296, 1 << 40, (1 << 63) - 1, (1 << 64) - 1):
         cases.append((None, 64, 0, v, str(v), 'untyped-reassign'))
         cases.append((None, 64, 0, v, str(v), 'untyped-reassign-twice'))
+    # integer literals used at a float type, as global and as local (small values are exact in both float types)
+    for v in (0, 1, 5, 255, 65536, 16777216):
+        for ft in ('f32', 'f64'):
+            cases.append((ft, 64, 0, v, str(v), 'float-global'))
+            cases.append((ft, 64, 0, v, str(v), 'float-local'))
     bad = 0
     for i, (t, w, sg, v, sp, how) in enumerate(cases):
         if how == 'annotated':
@@ -154,6 +159,12 @@ def part3(chk, tier, rnd):
             # the written value is > 1, so `x > 1` must hold; observed value: 7 when it holds, 0 otherwise
             src = 'lit :: (r: ^mut u64) { x := %s; r^ = 0; if x > 1 { r^ = 7; } }\nmain :: () { p := lit; }\n' % sp
             fits = True; w = 64; v = 7
+        elif how == 'float-global':
+            src = 'G : %s : %s;\nlit :: (r: ^mut u64) { r^ = u64.(G); }\nmain :: () { p := lit; }\n' % (t, sp)
+            fits = True; w = 64
+        elif how == 'float-local':
+            src = 'lit :: (r: ^mut u64) { g : %s = %s; r^ = u64.(g); }\nmain :: () { p := lit; }\n' % (t, sp)
+            fits = True; w = 64
         elif how == 'untyped-reassign':
             # nothing but literals ever gives x a type (a cast such as u64.(x) would); the written value is > 5
             src = 'lit :: (r: ^mut u64) { x := 5; x = %s; r^ = 0; if x > 5 { r^ = 7; } }\nmain :: () { p := lit; }\n' % sp
@@ -188,7 +199,7 @@ def part3(chk, tier, rnd):
                 got = val.as_long() if z3.is_bv_value(val) else None
             if got is None:
                 nb = clifcheck.NativeBatch('C09', 'lit_native', clifcheck.PRELUDE + src.replace('main :: () { p := lit; }\n', ''))
-                nb.add('lit', [(('ptr', t or 'u64', w // 8, True), 0)], None, [(0, w // 8)])
+                nb.add('lit', [(('ptr', 'u64' if (t is None or how.startswith('float')) else t, w // 8, True), 0)], None, [(0, w // 8)])
                 res = nb.run()
                 if res and res[0]:
                     ints = [x for x in res[0] if isinstance(x, int)]
